@@ -9,6 +9,7 @@ TRUST = ('trusted: library models (num-bigint as wide bit-vectors, Vec/slice/ite
 TECH = 'symbolic execution of rustc MIR (regenerated from /repo each run) + SMT (z3), bounded; counterexamples replayed natively'
 
 CLAIMS = {
+ 'C18': ('resolution clause only: DefaultCompilerOpts::read_new_file is executed from MIR with 1..3 (thorough 4) search directories and a symbolic existence bit per directory (fs::read and PathBuf are stubs); z3 decides that the returned name and contents are those of the first directory that has the file, that an error is returned only if none has it, and that pseudo-files (*macros*, dialect names) resolve to the built-in text. Partial: that gather_dependencies visits every include the compilation visits is not decided', 'DESIGN.md §4 C18'),
  'C19': ('symbolic execution of the real atomic_write_file / gentle_overwrite MIR (unwind edges included) against a nondeterministic file-system model: temp creation may fail, write_all may fail after any proper prefix, persist may fail, previous file absent / present with arbitrary contents; the state of the target path is logged after every primitive step and z3 decides that it is always the old file or the complete new data (so a crash after any step is safe), that success means installed, and that equal programs succeed even if rewriting fails. Counterexamples are replayed on a real directory under strace with fault injection. Concurrency is argued from the single-rename invariant, not explored', 'DESIGN.md §4 C19'),
  'C05': ('integer-mode clause only, modular: NewStyleIntConversion::{new,drop,setting} and the two functions that create the guard (compile_file, DefaultCompilerOpts::compile_program) are executed from MIR, unwind edges included, with a symbolic initial mode and a symbolic dialect int_fix; every other callee is a stub that nondeterministically returns Ok/Err or panics and preserves the mode. z3 decides that the mode equals int_fix while callees run and equals the initial mode on every exit, and that nested guards restore LIFO. Partial: the counter / hash-order / thread clauses are not decided', 'DESIGN.md §4 C05'),
  'C09': ('bounded symbolic execution of the real printers and readers from MIR. Classic pair: disassemble (ir_for_atom, write_ir, pybytes_repr, ...) -> assemble (IRReader, consume_*, interpret_atom_value, assemble_from_ir) for one atom of 0..3 (thorough 0..4) arbitrary bytes alone, as list head, second element and dotted tail, operator versions 0,1,2. Modern: impl Display for SExp on what convert_from_clvm_rs yields (and on quoted strings with either quote) -> parse_sexp -> convert_to_clvm_rs and -> classic assemble, fixed integer mode. z3 decides byte identity on every path', 'DESIGN.md §4 C09'),
